@@ -602,7 +602,11 @@ history iff every event is inside the recorded exclusions:
 * filters and delivered topic names without empty levels and not beginning
   with `$` (`good`, B3), delivered names valid, QoS <= 2;
 * QoS 1/2 publishes, subscribes, unsubscribes carry a caller-supplied non-zero
-  identifier (the reference client cannot track library-assigned ones);
+  identifier (`Spec.Client.step` tracks a request by the identifier on the
+  event; of a library-assigned identifier the reference client demands only
+  `Spec.Client.idAllowed` - non-zero, 16 bits, not in flight - and the
+  specification stream knows such a request by a name, `Spec.Client.autoName`:
+  section (e) has the model's side);
 * and the peer keeps to the protocol where the property is silent: SUBACK
   return codes in {0, 1, 2, 0x80}, no PUBREC for an exchange whose PUBCOMP was
   already processed, filters of one Subscribe valid and pairwise different
